@@ -128,6 +128,8 @@ def o_c13(scn, obs, runner):
             avail = res_ok(o)
         elif k == "close":
             avail = False
+            if op.get("transport_close_raises") and not o["res"].startswith("err"):
+                pass
         else:
             empty_path = k in ("list", "stat", "pull", "push") and op.get("path") == b""
             if empty_path:
